@@ -251,4 +251,17 @@ theorem pad_total (maxT eps total : K) (depths : List K) (i k : Nat) (hmax : 0 <
 example : pad (1/20 : ℚ) (1/1000000000000000) (1/2) [1/2, 2, 4] = some (0, 0) := by
   norm_num [pad, padFrom]
 
+/-- **The deep-temperature index exists whenever it is read.** If `generate()` returns and the rural file has at
+least three ground depths (the case in which every step reads `Tsoil[_soilindex1]`), the index was set by this very
+call and names a depth of the file: no run can read a missing or left-over index. -/
+theorem column_index_set (maxT minT eps droad kroad croad ksoil csoil : K) (depths : List K)
+    (ls : List (Lay K)) (idx : Option Nat) (h3 : 3 ≤ depths.length)
+    (h : columnOutcome maxT minT eps droad kroad croad ksoil csoil depths = .ok ls idx) :
+    ∃ i, idx = some i := by
+  unfold columnOutcome at h
+  split at h
+  · cases h
+  · rw [if_pos h3] at h; cases h
+  · cases h; exact ⟨_, rfl⟩
+
 end Uwg.C20
